@@ -200,7 +200,12 @@ func (g *Gen) genXfer(s *Spec, h int64, variant string) (string, bool) {
 		t.Outs = append(t.Outs, OutInfo{Addr: from, Amt: rest})
 	}
 	if g.r.Chance(1, 6) {
-		t.Outs = append(t.Outs, OutInfo{Addr: us[g.r.Intn(len(us))], Amt: big.NewInt(0)}) // zero-valued output
+		zo := OutInfo{Addr: us[g.r.Intn(len(us))], Amt: big.NewInt(0)} // zero-valued output
+		if g.r.Chance(1, 2) {
+			// the zero amount spelled non-minimally (clients that do not go through big.Int.Bytes())
+			zo.RawHex = []string{"00", "0000", "00"}[g.r.Intn(3)]
+		}
+		t.Outs = append(t.Outs, zo)
 	}
 	if w.Fee && g.r.Chance(1, 2) && len(t.Outs) > 0 && t.Outs[0].Amt.Cmp(big.NewInt(3)) > 0 {
 		fee := big.NewInt(int64(1 + g.r.Intn(3)))
@@ -233,6 +238,13 @@ func (g *Gen) genXfer(s *Spec, h int64, variant string) (string, bool) {
 		t.Outs = []OutInfo{{Addr: from, Amt: new(big.Int).Lsh(big.NewInt(1), 70)}}
 		for _, r := range t.Ins[1:] {
 			t.Outs = append(t.Outs, OutInfo{Addr: from, Amt: r.Amt})
+		}
+	}
+	if len(t.Outs) > 0 && g.r.Chance(1, 8) {
+		// a non-zero amount with leading zero bytes
+		i := g.r.Intn(len(t.Outs))
+		if t.Outs[i].Amt.Sign() > 0 && t.Outs[i].RawHex == "" {
+			t.Outs[i].RawHex = []string{"00", "0000"}[g.r.Intn(2)] + fmt.Sprintf("%x", t.Outs[i].Amt.Bytes())
 		}
 	}
 	return t.line("xtx", ""), true
